@@ -663,11 +663,15 @@ func genAdvPeer(rt *rapid.T, nm *hx.NodeMachine, cfg genCfg) hx.NOp {
 		// the first transaction of the block is a plain transfer that its initiator did not sign
 		plain := cfg
 		plain.ContractPct = 0
+		mut := rapid.SampledFrom([]string{"autogen", "marked", "nosig", "othersig", "dropread", "dropread"}).Draw(rt, "txmut")
+		if mut == "dropread" {
+			plain.ContractPct = 100 // needs a contract call that writes or deletes a key
+		}
 		s := nm.States[parent].Clone()
 		if spec, ok := genTxSpec(rt, nm, s, plain, 0, false); ok {
 			op.Txs = append([]hx.TxSpec{spec}, op.Txs...)
 			op.Old = nil
-			op.TxMut = rapid.SampledFrom([]string{"autogen", "marked", "nosig", "othersig"}).Draw(rt, "txmut")
+			op.TxMut = mut
 			op.Expect = "unsigned-tx-in-block"
 		}
 	case 0:
